@@ -238,6 +238,43 @@ def Op.adjoint (affineAware guarded : Kind → Bool) (adjM : Method → Method) 
 def Op.derivative (o : Op K) : Op K :=
   if o.pad == .constant && o.c != 0 then { o with c := 0 } else o
 
+/-- ROUND 4.  What a class's `.adjoint` builds, as DATA read by the translator from the
+`return [-]Cls(…)` expression (domain/range swapped is part of the translator's grammar). -/
+structure AdjSpec where
+  /-- the class constructed -/
+  kind : Kind
+  /-- `method=_ADJ_METHOD[self.method]` (`false`: `self.method`, or the class takes none) -/
+  adjM : Bool
+  /-- `pad_mode=_ADJ_PADDING[self.pad_mode]` (`false`: `self.pad_mode`) -/
+  adjP : Bool
+  /-- `pad_const=self.pad_const` (`false`: `0` / not passed, default 0) -/
+  keepC : Bool
+  /-- leading minus -/
+  neg : Bool
+  deriving Repr, DecidableEq
+
+/-- What `.derivative` builds in its affine branch: class and whether `pad_const` is reset. -/
+structure DerivSpec where
+  kind : Kind
+  zeroC : Bool
+  deriving Repr, DecidableEq
+
+/-- `.adjoint`, interpreting the GENERATED `spec` (nothing about the four `return`
+expressions is hand-written here; compare `Op.adjoint`, which hard-codes them). -/
+def Op.adjointBy (affineAware guarded : Kind → Bool) (spec : Kind → AdjSpec)
+    (adjM : Method → Method) (adjP : Pad → Pad) (o : Op K) : Option (Op K) :=
+  if guarded o.kind && !(o.isLinear affineAware) then none else
+  let s := spec o.kind
+  some ⟨s.kind, if s.adjM then adjM o.method else o.method,
+    if s.adjP then adjP o.pad else o.pad, if s.keepC then o.c else 0,
+    if s.neg then !o.neg else o.neg⟩
+
+/-- `.derivative(point)`, interpreting the GENERATED `spec`. -/
+def Op.derivativeBy (spec : Kind → DerivSpec) (o : Op K) : Op K :=
+  if o.pad == .constant && o.c != 0 then
+    ⟨(spec o.kind).kind, o.method, o.pad, if (spec o.kind).zeroC then 0 else o.c, o.neg⟩
+  else o
+
 end
 
 /-- Gaussian rationals as scalars of the executable model. -/
